@@ -270,3 +270,487 @@ def extract(ctx):
     stmts = [s for s in rem.body if not (isinstance(s, ast.Expr) and isinstance(s.value, ast.Constant))]
     g.strings('callerRemoveBody', [ast.unparse(s) for s in stmts])
     return {'C07.lean': g.render()}
+
+
+# ---- the real code under a scripted fake link ------------------------------------------------------------
+class _Stop(BaseException):
+    """raised by the fake link when the scripted packets are used up (synchronous mode)"""
+
+
+class Scripted(Exception):
+    """raised by a scripted callback"""
+
+
+def act_token(a):
+    """the Lean-side spelling of an action"""
+    if a[0] in ('a', 'r'):
+        _, how, port, pm, ch, cm, cb = a
+        if how.endswith('default'):
+            return '%sd:%d:%d:%d' % (a[0], cb, port, ch)
+        if how.endswith('port'):
+            return '%sp:%d:%d' % (a[0], port, cb)
+        return '%s:%d:%d:%d:%d:%d' % (a[0], port, pm, ch, cm, cb)
+    if a[0] in ('A', 'R'):
+        return '%s:%d' % (a[0], a[1])
+    return 'x'
+
+
+def case_lines(case):
+    lines = ['reset']
+    for op in case['ops']:
+        if op[0] == 'beh':
+            lines.append('beh %d %d %s' % (op[1], op[2], ','.join(act_token(a) for a in op[3]) or '-'))
+        elif op[0] == 'ext':
+            lines.append('ext ' + act_token(op[1]))
+        else:
+            lines.append('pkts ' + ','.join(str(h) for h in op[1]))
+    return lines
+
+
+class RealEnv:
+    """One _IncomingPacketHandler with a stub Crazyflie (real Caller, real public wrapper methods), a scripted
+    link and instrumented callbacks.  mode 'sync': run() is called in the caller's thread and ends by _Stop;
+    mode 'thread': the real thread is started; the link blocks it on a condition variable between batches."""
+
+    def __init__(self, mode='sync'):
+        import logging
+        import threading
+        import cflib.crazyflie as cfmod
+        from cflib.utils.callbacks import Caller
+        from cflib.crtp.crtpstack import CRTPPacket
+        self.CRTPPacket = CRTPPacket
+        self.mode = mode
+        self.log = []
+        self.tbl = {}
+        self.count = {}
+        self.cbs = {}
+        self.cur = None
+        self.dead = False
+        self.queue = []
+        self.cond = threading.Condition()
+        self.waiting = False
+        self.stop = False
+        self.finished = False
+        env = self
+
+        class Link:
+            def receive_packet(self, wait=0):
+                if env.mode == 'sync':
+                    if not env.queue:
+                        raise _Stop()
+                else:
+                    with env.cond:
+                        while not env.queue:
+                            if env.stop:
+                                raise SystemExit()      # ends the thread silently
+                            env.waiting = True
+                            env.cond.notify_all()
+                            env.cond.wait()
+                        env.waiting = False
+                h, pk = env.queue.pop(0)
+                env.cur = pk
+                env.log.append('P%d' % h)
+                return pk
+
+        class StubCf:
+            add_port_callback = cfmod.Crazyflie.add_port_callback
+            remove_port_callback = cfmod.Crazyflie.remove_port_callback
+            add_header_callback = cfmod.Crazyflie.add_header_callback
+            remove_header_callback = cfmod.Crazyflie.remove_header_callback
+
+        self.cf = StubCf()
+        self.cf.link = Link()
+        self.cf.packet_received = Caller()
+        self.h = cfmod._IncomingPacketHandler(self.cf)
+        self.h.daemon = True
+        self.cf.incoming = self.h
+        # the dispatcher reports a caught callback exception through its module logger
+        self.logger = logging.getLogger(cfmod.__name__)
+        self.handler = logging.Handler(level=logging.ERROR)
+        self.handler.emit = lambda rec: env.log.append('L')
+        self.saved = (self.logger.level, self.logger.propagate, list(self.logger.handlers))
+        self.logger.handlers = [self.handler]
+        self.logger.propagate = False
+        self.logger.setLevel(logging.ERROR)
+        if mode == 'thread':
+            real_run = self.h.run
+
+            def guarded_run():
+                try:
+                    real_run()
+                except Exception:
+                    env.log.append('D')
+                    env.dead = True
+                finally:
+                    with env.cond:
+                        env.finished = True
+                        env.cond.notify_all()
+            self.h.run = guarded_run      # instance attribute: Thread._bootstrap_inner calls self.run()
+            self.started = False
+
+    def close(self):
+        if self.mode == 'thread' and self.started:
+            with self.cond:
+                self.stop = True
+                self.cond.notify_all()
+            self.h.join()
+        self.logger.setLevel(self.saved[0])
+        self.logger.propagate = self.saved[1]
+        self.logger.handlers = self.saved[2]
+
+    def cb(self, cid):
+        if cid not in self.cbs:
+            env = self
+
+            def f(pk, cid=cid):
+                k = env.count.get(cid, 0)
+                env.count[cid] = k + 1
+                env.log.append(('a' if cid >= 100 else 'c') + str(cid))
+                if pk is not env.cur:
+                    env.log.append('WRONG-PACKET')
+                for a in env.tbl.get((cid, k), ()):
+                    env.do(a)
+            self.cbs[cid] = f
+        return self.cbs[cid]
+
+    def do(self, a):
+        if a[0] == 'x':
+            self.log.append('!')
+            raise Scripted()
+        if a[0] == 'A':
+            self.cf.packet_received.add_callback(self.cb(a[1]))
+            return
+        if a[0] == 'R':
+            try:
+                self.cf.packet_received.remove_callback(self.cb(a[1]))
+            except ValueError:
+                self.log.append('!')
+                raise
+            return
+        kind, how, port, pm, ch, cm, cid = a
+        tgt = self.cf if how.startswith('cf-') else self.h
+        how = how[3:] if how.startswith('cf-') else how
+        name = ('add_' if kind == 'a' else 'remove_') + ('port_callback' if how == 'port' else 'header_callback')
+        f = getattr(tgt, name)
+        c = self.cb(cid)
+        if how == 'port':
+            f(port, c)
+        elif how == 'default':
+            f(c, port, ch)
+        elif how == 'kw':
+            f(cb=c, port=port, channel=ch, channel_mask=cm, port_mask=pm)
+        else:
+            f(c, port, ch, pm, cm)
+
+    def feed(self, hdrs):
+        n0 = len(self.log)
+        if self.dead or self.finished:
+            return 'ok -'
+        pks = [(h, self.CRTPPacket(h, [h & 0x7F])) for h in hdrs]
+        if self.mode == 'sync':
+            self.queue.extend(pks)
+            try:
+                self.h.run()
+            except _Stop:
+                pass
+            except Exception:
+                self.log.append('D')
+                self.dead = True
+        else:
+            with self.cond:
+                self.queue.extend(pks)
+                if not self.started:
+                    self.started = True
+                    self.h.start()
+                self.cond.notify_all()
+                while not (self.finished or (self.waiting and not self.queue)):
+                    self.cond.wait()
+            if not self.finished and not self.h.is_alive():
+                self.log.append('THREAD-NOT-ALIVE')
+        out = self.log[n0:]
+        return 'ok ' + (' '.join(out) if out else '-')
+
+
+def real_case(case):
+    """replies of the real code to the ext/pkts ops of a case (None for beh ops)"""
+    env = RealEnv(case.get('mode', 'sync'))
+    res = [None]
+    try:
+        for op in case['ops']:
+            if op[0] == 'beh':
+                env.tbl[(op[1], op[2])] = list(op[3])
+                res.append(None)
+            elif op[0] == 'ext':
+                n0 = len(env.log)
+                try:
+                    env.do(op[1])
+                    res.append('ok')
+                except ValueError:
+                    res.append('err value_error')
+                del env.log[n0:]
+            else:
+                res.append(env.feed(op[1]))
+    finally:
+        env.close()
+    return res
+
+
+# ---- case generation --------------------------------------------------------------------------------------
+PMASKS = [0xFF, 0xFF, 0xFF, 0x0F, 0xF0, 0x00, 0x08, 0x0C, 0x01, 0x07, 0x1F]
+CMASKS = [0xFF, 0xFF, 0x03, 0x00, 0x01, 0x02, 0xFC]
+HOWS_FULL = ['full', 'full', 'kw', 'cf-full']
+
+
+def mk_reg_act(kind, how, port, pm, ch, cm, cb):
+    """normalise: the tuple always carries the effective five fields"""
+    if how.endswith('port'):
+        pm, ch, cm = 0xFF, 0, 0
+    elif how.endswith('default'):
+        pm, cm = 0xFF, 0xFF
+    return (kind, how, port, pm, ch, cm, cb)
+
+
+def how_for(rng, pm, ch, cm):
+    """a way of spelling the call that denotes exactly these fields"""
+    opts = list(HOWS_FULL)
+    if (pm, ch, cm) == (0xFF, 0, 0):
+        opts += ['port', 'port', 'cf-port']
+    if (pm, cm) == (0xFF, 0xFF):
+        opts += ['default', 'cf-default']
+    return rng.choice(opts)
+
+
+def rand_fields(rng, hot):
+    r = rng.random()
+    if r < 0.35:
+        return (rng.choice(hot), 0xFF, 0, 0)                   # a port callback
+    port = rng.choice(hot) if rng.random() < 0.7 else rng.choice([rng.randrange(16), rng.randrange(16), 0xFF, 16, 0x90])
+    pm = rng.choice(PMASKS)
+    if rng.random() < 0.75:
+        port &= pm
+    ch = rng.randrange(4)
+    cm = rng.choice(CMASKS)
+    if rng.random() < 0.75:
+        ch &= cm
+    return (port, pm, ch, cm)
+
+
+def rand_hdr(rng, hot):
+    if rng.random() < 0.8:
+        return (rng.choice(hot) << 4) | rng.randrange(16)
+    return rng.randrange(256)
+
+
+def gen_random_case(rng, big=False):
+    hot = [rng.randrange(16) for _ in range(rng.choice([1, 1, 2, 3]))]
+    ops = []
+    regs = []                                  # the registrations mentioned so far (five fields + cb)
+    ncb = rng.choice([2, 3, 5, 8])
+    for _ in range(rng.randrange(0, 9)):
+        if regs and rng.random() < 0.12:
+            f = rng.choice(regs)               # an exact duplicate
+        else:
+            f = rand_fields(rng, hot) + (rng.randrange(1, ncb + 1),)
+        regs.append(f)
+        ops.append(('ext', mk_reg_act('a', how_for(rng, f[1], f[2], f[3]), f[0], f[1], f[2], f[3], f[4])))
+    alls = [100 + i for i in range(rng.choice([0, 0, 1, 2]))]
+    for c in alls:
+        ops.append(('ext', ('A', c)))
+
+    def rand_act(owner_pos=None):
+        r = rng.random()
+        if r < 0.40 and regs:
+            if owner_pos is not None and rng.random() < 0.6:
+                kind = rng.choice(['self', 'earlier', 'later'])
+                if kind == 'self':
+                    f = regs[owner_pos]
+                elif kind == 'earlier':
+                    f = regs[rng.randrange(0, owner_pos + 1)]
+                else:
+                    f = regs[rng.randrange(owner_pos, len(regs))]
+            else:
+                f = rng.choice(regs)
+            if rng.random() < 0.08:
+                f = (f[0], f[1] ^ 1, f[2], f[3], f[4])       # near miss: removes nothing
+            return mk_reg_act('r', how_for(rng, f[1], f[2], f[3]), *f)
+        if r < 0.70:
+            if regs and rng.random() < 0.25:
+                f = rng.choice(regs)
+            else:
+                f = rand_fields(rng, hot) + (rng.randrange(1, ncb + 1),)
+                regs.append(f)
+            return mk_reg_act('a', how_for(rng, f[1], f[2], f[3]), *f)
+        if r < 0.85:
+            return ('x',)
+        if r < 0.93:
+            return ('A', 100 + rng.randrange(3))
+        return ('R', 100 + rng.randrange(3))
+
+    nbeh = rng.choice([0, 1, 2, 3, 5, 8]) if not big else rng.randrange(4, 14)
+    seen = set()
+    for _ in range(nbeh):
+        if regs and rng.random() < 0.85:
+            pos = rng.randrange(len(regs))
+            cid = regs[pos][4]
+        else:
+            pos, cid = None, rng.choice(alls) if alls else 100
+        k = rng.choice([0, 0, 0, 1, 1, 2])
+        if (cid, k) in seen:
+            continue
+        seen.add((cid, k))
+        acts = [rand_act(pos) for _ in range(rng.choice([1, 1, 1, 2, 3]))]
+        if cid >= 100:
+            acts = [a for a in acts if a[0] != 'x' or rng.random() < 0.3]     # a raising all-packet callback ends the thread
+        ops.append(('beh', cid, k, acts))
+    for b in range(rng.choice([1, 1, 2, 3])):
+        if b and rng.random() < 0.5:
+            ops.append(('ext', rand_act(None) if rng.random() < 0.8 else ('R', 100 + rng.randrange(3))))
+            if ops[-1][1][0] == 'x':
+                ops.pop()
+        ops.append(('pkts', [rand_hdr(rng, hot) for _ in range(rng.choice([1, 1, 2, 3, 4]))]))
+    return {'mode': 'thread' if rng.random() < 0.15 else 'sync', 'ops': ops, 'family': 'random'}
+
+
+def gen_families(rng, thorough):
+    cases = []
+    # F1: n registrations on one port, every subset of them raising; a second packet shows processing goes on
+    for n in range(1, 6 if thorough else 5):
+        for mask in range(1 << n):
+            port = rng.randrange(16)
+            ops = [('ext', mk_reg_act('a', rng.choice(['port', 'full', 'cf-port']), port, 0xFF, 0, 0, i + 1)) for i in range(n)]
+            ops += [('beh', i + 1, 0, [('x',)]) for i in range(n) if (mask >> i) & 1]
+            ops.append(('pkts', [(port << 4) | rng.randrange(16), (port << 4) | rng.randrange(16)]))
+            cases.append({'mode': 'sync', 'ops': ops, 'family': 'raise-subsets'})
+    # F2: callback i removes registration j / adds a registration, for all i, j
+    for n in (2, 3, 4):
+        for i in range(n):
+            for j in range(n):
+                for variant in ('remove', 'remove+raise', 'remove+add'):
+                    port = rng.randrange(16)
+                    ops = [('ext', mk_reg_act('a', 'port', port, 0xFF, 0, 0, k + 1)) for k in range(n)]
+                    acts = [mk_reg_act('r', rng.choice(['port', 'full', 'cf-port']), port, 0xFF, 0, 0, j + 1)]
+                    if variant == 'remove+raise':
+                        acts.append(('x',))
+                    if variant == 'remove+add':
+                        acts.append(mk_reg_act('a', 'port', port, 0xFF, 0, 0, n + 1))
+                    ops.append(('beh', i + 1, 0, acts))
+                    ops.append(('pkts', [port << 4, (port << 4) | 3]))
+                    cases.append({'mode': 'sync', 'ops': ops, 'family': 'remove-%s' % ('self' if i == j else 'earlier' if j < i else 'later')})
+            port = rng.randrange(16)
+            ops = [('ext', mk_reg_act('a', 'port', port, 0xFF, 0, 0, k + 1)) for k in range(n)]
+            ops.append(('beh', i + 1, 0, [mk_reg_act('a', 'port', port, 0xFF, 0, 0, rng.choice([i + 1, n + 1]))]))
+            ops.append(('pkts', [port << 4, port << 4]))
+            cases.append({'mode': 'sync', 'ops': ops, 'family': 'add-during'})
+    # F3: all 256 headers against small registries with assorted masks
+    for _ in range(24 if thorough else 6):
+        hot = [rng.randrange(16), rng.randrange(16)]
+        ops = []
+        for k in range(rng.choice([1, 2, 3])):
+            f = rand_fields(rng, hot)
+            ops.append(('ext', mk_reg_act('a', how_for(rng, f[1], f[2], f[3]), f[0], f[1], f[2], f[3], k + 1)))
+        ops.append(('pkts', list(range(256))))
+        cases.append({'mode': 'sync', 'ops': ops, 'family': 'all-headers'})
+    # F4: all-packet callbacks and the port registry; Caller corner cases
+    for port in (rng.randrange(16),):
+        h = port << 4
+        P = lambda cid: mk_reg_act('a', 'port', port, 0xFF, 0, 0, cid)
+        R = lambda cid: mk_reg_act('r', 'port', port, 0xFF, 0, 0, cid)
+        fam = [
+            [('ext', ('A', 100)), ('beh', 100, 0, [P(1)]), ('pkts', [h, h])],                    # registered for this very packet
+            [('ext', ('A', 100)), ('ext', P(1)), ('beh', 100, 0, [R(1)]), ('pkts', [h, h])],
+            [('ext', ('A', 100)), ('ext', ('A', 101)), ('ext', P(1)), ('beh', 100, 1, [('x',)]), ('pkts', [h, h, h]), ('pkts', [h])],
+            [('ext', ('A', 100)), ('ext', ('A', 100)), ('ext', ('A', 101)), ('pkts', [h])],       # no duplicates in Caller
+            [('ext', ('A', 100)), ('ext', ('A', 101)), ('ext', ('A', 102)), ('beh', 100, 0, [('R', 100)]), ('pkts', [h, h])],
+            [('ext', ('A', 100)), ('ext', ('A', 101)), ('beh', 100, 0, [('R', 101)]), ('pkts', [h, h])],   # copy: 101 still called once
+            [('ext', ('A', 100)), ('beh', 100, 0, [('A', 101)]), ('pkts', [h, h])],
+            [('ext', ('A', 100)), ('beh', 100, 0, [('R', 102)]), ('pkts', [h, h])],               # ValueError kills the thread
+            [('ext', ('R', 100))],
+            [('ext', P(1)), ('beh', 1, 0, [('R', 100)]), ('ext', P(2)), ('pkts', [h, h])],         # ValueError in a port callback is caught
+            [('ext', P(1)), ('ext', P(1)), ('ext', P(2)), ('ext', R(1)), ('pkts', [h])],           # duplicates: remove takes all copies
+            [('ext', P(1)), ('ext', P(1)), ('ext', P(2)), ('ext', P(1)), ('beh', 2, 0, [R(1)]), ('pkts', [h, h])],
+        ]
+        for ops in fam:
+            for mode in ('sync', 'thread'):
+                cases.append({'mode': mode, 'ops': ops, 'family': 'caller-and-all'})
+    return cases
+
+
+def gen_cases(ctx):
+    rng = ctx.rng
+    thorough = ctx.tier == 'thorough'
+    cases = load_corpus() + gen_families(rng, thorough)
+    for _ in range(12000 if thorough else 1500):
+        cases.append(gen_random_case(rng, big=rng.random() < 0.2))
+    return cases
+
+
+def load_corpus():
+    import glob
+    import json
+    import os
+    res = []
+    d = os.path.join(os.path.dirname(os.path.dirname(os.path.abspath(__file__))), 'corpus', 'c07')
+    for f in sorted(glob.glob(os.path.join(d, '*.json'))):
+        j = json.load(open(f))
+        for c in j.get('cases', []):
+            c = dict(c)
+            c['ops'] = [_untuple(op) for op in c['ops']]
+            c.setdefault('family', 'corpus')
+            res.append(c)
+    return res
+
+
+def _untuple(op):
+    if op[0] == 'beh':
+        return ('beh', op[1], op[2], [tuple(a) for a in op[3]])
+    if op[0] == 'ext':
+        return ('ext', tuple(op[1]))
+    return ('pkts', list(op[1]))
+
+
+def correspond(ctx):
+    cases = gen_cases(ctx)
+    lines = []
+    for c in cases:
+        lines += case_lines(c)
+    replies = ctx.lean(DRIVER, lines)
+    pos = 0
+    for c in cases:
+        cl = case_lines(c)
+        model = replies[pos:pos + len(cl)]
+        pos += len(cl)
+        real = real_case(c)
+        ctx.count('family:' + c['family'])
+        ctx.count('mode:' + c.get('mode', 'sync'))
+        bad = None
+        interesting = False
+        for line, m, r in zip(cl, model, real):
+            if r is None:
+                if m != 'ok':
+                    bad = (line, m, 'ok')
+                continue
+            if line.startswith('ext'):
+                ctx.count('ext:' + r)
+            else:
+                toks = r.split(' ')[1:]
+                ctx.count('packets', sum(1 for t in toks if t[0] == 'P'))
+                ctx.count('port-calls', sum(1 for t in toks if t[0] == 'c'))
+                ctx.count('all-calls', sum(1 for t in toks if t[0] == 'a'))
+                ctx.count('raised', toks.count('!'))
+                ctx.count('logged-errors', toks.count('L'))
+                ctx.count('thread-died', toks.count('D'))
+                if any(t[0] == 'c' for t in toks):
+                    interesting = True
+            if m != r and bad is None:
+                bad = (line, m, r)
+        for op in c['ops']:
+            if op[0] == 'beh':
+                for a in op[3]:
+                    ctx.count('act-in-callback:' + a[0])
+        ctx.case({'family': c['family'], 'mode': c.get('mode', 'sync'), 'ops': cl[1:8]}, tuple(cl) if interesting else None)
+        if bad:
+            ctx.disagree('dispatch:' + c['family'], {'lines': cl, 'at': bad[0]}, bad[1][:400], bad[2][:400])
+
+
+def search(ctx):
+    pass
